@@ -99,6 +99,7 @@ type Queue struct {
 	Pick   func(items [][]byte) int
 	Seen   [][]byte // every frame ever written (C17)
 	Gate   bool     // when true nothing is delivered until Release()
+	Drain  bool     // when true frames written before Close are still delivered (a message transport hands over what it has before reporting the error)
 }
 
 func NewQueue() *Queue {
@@ -124,7 +125,7 @@ func (q *Queue) Get() ([]byte, error) {
 	q.mu.Lock()
 	defer q.mu.Unlock()
 	for {
-		if q.closed != nil {
+		if q.closed != nil && !(q.Drain && len(q.items) > 0) {
 			return nil, q.closed
 		}
 		if len(q.items) > 0 && !q.Gate {
